@@ -101,8 +101,15 @@ class StartupRun:
             for a in acts:
                 k = a["a"]
                 if k == "publish":
-                    add_resource(TYPES[a["ty"]](a["v"]), a["name"], types=[TYPES[a["ty"]]])
-                    self.log("pub", i, a["ty"], a["name"], a["v"])
+                    if a.get("td") is not None:
+                        # a resource handed over together with its teardown callback
+                        add_resource(TYPES[a["ty"]](a["v"]), a["name"], types=[TYPES[a["ty"]]],
+                                     teardown_callback=lambda id_=a["td"]: self.log("tdRun", id_))
+                        self.log("pub", i, a["ty"], a["name"], a["v"])
+                        self.log("regTd", i, a["td"])
+                    else:
+                        add_resource(TYPES[a["ty"]](a["v"]), a["name"], types=[TYPES[a["ty"]]])
+                        self.log("pub", i, a["ty"], a["name"], a["v"])
                 elif k == "publishFactory":
                     add_resource_factory(lambda fid=a["fid"]: Gen(fid), a["name"], types=[TYPES[a["ty"]]])
                     self.log("pubFac", i, a["ty"], a["name"], a["fid"])
@@ -213,13 +220,31 @@ def run_startup_case(case: dict[str, Any]) -> dict[str, Any]:
 # ------------------------------------------------------------------------------------ reference
 
 
+def expand_prog(prog: list[dict[str, Any]]) -> list[dict[str, Any]]:
+    """`publish` with a teardown callback = `publish` followed by `regTd` inside one atomic section."""
+    out = []
+    for spec in prog:
+        spec = dict(spec)
+        for ph in ("prepare", "start"):
+            if spec[ph] is not None:
+                acts = []
+                for a in spec[ph]:
+                    if a["a"] == "publish" and a.get("td") is not None:
+                        acts += [{k: v for k, v in a.items() if k != "td"}, {"a": "regTd", "id": a["td"]}]
+                    else:
+                        acts.append(a)
+                spec[ph] = acts
+        out.append(spec)
+    return out
+
+
 class RefRun:
     """The documented discipline, independently of asphalt: prepare, then all children
     concurrently, then start; a resource request returns as soon as the resource is there;
     one failure (or the time-out) stops everything."""
 
     def __init__(self, case: dict[str, Any]) -> None:
-        self.prog = case["prog"]
+        self.prog = expand_prog(case["prog"])
         self.timeout = case["timeout"]
         self.times: list[tuple[tuple[Any, ...], float]] = []
         self.table: dict[tuple[int, str], Any] = {}
